@@ -5,6 +5,7 @@ import (
 	"fmt"
 	"math/rand"
 	"net"
+	"os"
 	"reflect"
 	"runtime/debug"
 	"sort"
@@ -42,10 +43,48 @@ func init() {
 			return 20000
 		},
 		Batch: 2000,
-		Init:  per.SelfTest,
+		Init:  c13Init,
 		Run:   runC13,
 	})
 }
+
+// c13Init: the oracle's self-test, then the FIRST builder call of this process. Its address argument is one whose four
+// octets overlap the fixed octets that precede the address in the encoding (h0 h1 h2 | a b c d: the addresses h2.h2.h2.h2,
+// h1.h2.h1.h2 and h0.h1.h2.h0 occur in the encoding one, two and three octets before their own position): whatever a
+// builder keeps from its first call - a template, a position found by looking for the argument's octets - is kept from
+// this call, and every later case of the process is judged as usual.
+func c13Init() error {
+	if err := per.SelfTest(); err != nil {
+		return err
+	}
+	// the layout comes from the REFERENCE encoder: the library must not be called before the call this is about
+	var t ngapType.PDUSessionResourceSetupResponseTransfer
+	ti := &t.QosFlowPerTNLInformation
+	ti.UPTransportLayerInformation.Present = ngapType.UPTransportLayerInformationPresentGTPTunnel
+	ti.UPTransportLayerInformation.GTPTunnel = &ngapType.GTPTunnel{}
+	ti.UPTransportLayerInformation.GTPTunnel.GTPTEID.Value = []byte{0, 0, 0, 1}
+	ti.UPTransportLayerInformation.GTPTunnel.TransportLayerAddress.Value = aper.BitString{Bytes: []byte{10, 11, 12, 13}, BitLength: 32}
+	ti.AssociatedQosFlowList.List = []ngapType.AssociatedQosFlowItem{{QosFlowIdentifier: ngapType.QosFlowIdentifier{Value: 1}}}
+	probe, err := per.Marshal(t, "valueExt")
+	if err != nil {
+		return nil
+	}
+	at := bytes.Index(probe, []byte{10, 11, 12, 13})
+	if at < 3 {
+		return nil
+	}
+	h := probe[at-3 : at]
+	first := [][4]byte{{h[2], h[2], h[2], h[2]}, {h[1], h[2], h[1], h[2]}, {h[0], h[1], h[2], h[0]}}[os.Getpid()%3]
+	c13FirstAddress = net.IP(first[:]).String()
+	c13FirstWant = append(append(append([]byte(nil), probe[:at]...), first[:]...), probe[at+4:]...)
+	return nil
+}
+
+var (
+	c13FirstAddress string
+	c13FirstWant    []byte
+	c13FirstDone    bool
+)
 
 type bArgs struct {
 	amf, ran   int64
@@ -357,6 +396,14 @@ var idGrid32 = []int64{0, 1, 255, 256, 65535, 65536, 1<<24 - 1, 1 << 24, 1<<32 -
 func runC13(c *fw.Case) (o fw.Outcome) {
 	harvest()
 	r := c.R
+	if !c13FirstDone && c13FirstAddress != "" {
+		c13FirstDone = true
+		if got := tp.GetPDUSessionResourceSetupResponseTransfer(c13FirstAddress); !bytes.Equal(got, c13FirstWant) {
+			o.Nontrivial, o.Digest = true, fw.HashS("first-builder-call", c13FirstAddress)
+			o.Fail("mismatch:first-call-of-a-process", "GetPDUSessionResourceSetupResponseTransfer(%s) as the first builder call of a process = %x, X.691 gives %x", c13FirstAddress, got, c13FirstWant)
+			return
+		}
+	}
 	sp := c13Specs[c.Idx%len(c13Specs)]
 	a := &bArgs{r: r}
 	pickID := func(grid []int64, max int64) int64 {
